@@ -36,3 +36,18 @@ define_language! {
         Let(Bind<AppliedId>, AppliedId) = "let",
     }
 }
+
+define_language! {
+    /// P: the language of the parser/printer checks (C18): one payload variant only, so that
+    /// not every identifier is a leaf.
+    pub enum P {
+        F(Slot, Slot) = "f",
+        V(Slot) = "v",
+        C() = "c",
+        G(AppliedId) = "g",
+        H(AppliedId, AppliedId) = "h",
+        Lam(Bind<AppliedId>) = "lam",
+        Let(Bind<AppliedId>, AppliedId) = "let",
+        Num(u32),
+    }
+}
